@@ -91,6 +91,8 @@ type udpSock struct {
 	rdl, wdl time.Time
 	bcast    int // broadcast port this socket listens to (peers), 0 none
 	ReadErr  error
+	ReadErrAt int
+	ReadErrV  error
 	NReads   int
 	NWrites  int
 	Sent     [][]byte
@@ -215,6 +217,13 @@ func (w *World) deliver(from *udpSock, to Addr, d dgram) {
 	}
 }
 
+// UDPPortOpen tells whether a socket is bound to port.
+func (w *World) UDPPortOpen(port int) bool {
+	w.mu.Lock()
+	defer w.mu.Unlock()
+	return w.udpBound[port] != nil
+}
+
 // recv blocks for the next datagram of an inbox, honouring deadline and close.
 func recvFrom(name string, id int, in *inbox, dl func() time.Time, closedCh chan struct{}) (dgram, error) {
 	for {
@@ -295,7 +304,11 @@ func (c *UDPConn) Read(p []byte) (int, error) {
 	c.s.mu.Lock()
 	c.s.NReads++
 	e := c.s.ReadErr
+	if e == nil && c.s.ReadErrAt > 0 && c.s.NReads >= c.s.ReadErrAt {
+		e = c.s.ReadErrV
+	}
 	c.s.mu.Unlock()
+	rec("net", c.s.name+" read-call", int64(c.s.id), 0, 0, nodeFlag(c.s.node))
 	if e != nil {
 		dsim.Probe("fault:read-error")
 		rec("net", c.s.name+" read-fault", int64(c.s.id))
@@ -325,7 +338,7 @@ func (c *UDPConn) Write(p []byte) (int, error) {
 	if c.s.isClosed() {
 		return 0, &net.OpError{Op: "write", Net: "udp", Err: errClosed}
 	}
-	rec("net", c.s.name+" write-call", int64(c.s.id), int64(len(p)))
+	rec("net", c.s.name+" write-call", int64(c.s.id), int64(len(p)), 0, nodeFlag(c.s.node))
 	c.s.send(c.s.remote, p)
 	return len(p), nil
 }
@@ -354,7 +367,7 @@ func (c *UDPConn) SetReadDeadline(t time.Time) error {
 	if !t.IsZero() {
 		d = int64(time.Until(t))
 	}
-	rec("net", c.s.name+" set-read-deadline", int64(c.s.id), d)
+	rec("net", c.s.name+" set-read-deadline", int64(c.s.id), d, 0, nodeFlag(c.s.node))
 	return nil
 }
 
@@ -366,8 +379,15 @@ func (c *UDPConn) SetWriteDeadline(t time.Time) error {
 	if !t.IsZero() {
 		d = int64(time.Until(t))
 	}
-	rec("net", c.s.name+" set-write-deadline", int64(c.s.id), d)
+	rec("net", c.s.name+" set-write-deadline", int64(c.s.id), d, 0, nodeFlag(c.s.node))
 	return nil
+}
+
+// FailReadAt makes the k-th and every later Read fail.
+func (c *UDPConn) FailReadAt(k int, e error) {
+	c.s.mu.Lock()
+	c.s.ReadErrAt, c.s.ReadErrV = k, e
+	c.s.mu.Unlock()
 }
 
 // SetReadErr makes every later Read fail (an ICMP error, an interface going away).
@@ -496,6 +516,7 @@ func (l *pionListener) Addr() net.Addr { return l.s.local() }
 
 func (c *pionConn) Read(p []byte) (int, error) {
 	dsim.Yield(c.name + ".Read")
+	rec("net", c.name+" read-call", int64(c.id), 0, 0, 1)
 	c.mu.Lock()
 	dl := c.rdl
 	c.mu.Unlock()
@@ -524,7 +545,7 @@ func (c *pionConn) Write(p []byte) (int, error) {
 	c.mu.Lock()
 	dl := c.wdl
 	c.mu.Unlock()
-	rec("net", c.name+" write-call", int64(c.id), int64(len(p)))
+	rec("net", c.name+" write-call", int64(c.id), int64(len(p)), 0, 1)
 	if !dl.IsZero() && !time.Now().Before(dl) {
 		return 0, timeoutError("write", "udp")
 	}
@@ -570,7 +591,7 @@ func (c *pionConn) SetReadDeadline(t time.Time) error {
 	if !t.IsZero() {
 		d = int64(time.Until(t))
 	}
-	rec("net", c.name+" set-read-deadline", int64(c.id), d)
+	rec("net", c.name+" set-read-deadline", int64(c.id), d, 0, 1)
 	return nil
 }
 
@@ -582,7 +603,7 @@ func (c *pionConn) SetWriteDeadline(t time.Time) error {
 	if !t.IsZero() {
 		d = int64(time.Until(t))
 	}
-	rec("net", c.name+" set-write-deadline", int64(c.id), d)
+	rec("net", c.name+" set-write-deadline", int64(c.id), d, 0, 1)
 	return nil
 }
 
